@@ -128,6 +128,30 @@ def check(ctx):
             ("call", ("a", a, "sum"), (), ()), a))
     ctx.ob("C02.R2", rs, "_reduced_sum reduces every argument with .sum() BEFORE adding "
                          "them", ok, detail=short(rr or ()), stmt="reduced_sum " + pretty(rr or ())[:160])
+    # init_dist builds the distribution from the CURRENT values of all inputs
+    idf = method(repo, repo.cls(f"{NODES}.Dist"), "init_dist", own=True)
+    rid = evaluate(repo, idf).ret()
+    inp_it = ("iter", ("a", SELF, "inputs"))
+    kw_it = ("iter", ("call", ("a", ("a", SELF, "kwinputs"), "items"), (), ()))
+    want_id = ("call", ("a", SELF, "distribution"),
+               (("star", ("comp", "list", ("a", inp_it, "value"),
+                          ((n("_input"), ("a", SELF, "inputs"), ()),))),),
+               (("**", ("comp", "dict", (("proj", kw_it, 0), ("a", ("proj", kw_it, 1), "value")),
+                        ((("tuple", (n("kw"), n("_input"))),
+                          ("call", ("a", ("a", SELF, "kwinputs"), "items"), (), ()), ()),))),))
+    ok_id = False
+    if rid is not None and rid[0] == "call" and rid[1] == ("a", SELF, "distribution"):
+        stars = [a for a in rid[2] if a[0] == "star"]
+        dstars = [v for k, v in rid[3] if k == "**"]
+        ok_id = (len(stars) == 1 and len(rid[2]) == 1 and len(dstars) == 1 and len(rid[3]) == 1
+                 and stars[0][1][0] == "comp" and stars[0][1][2] == ("a", inp_it, "value")
+                 and stars[0][1][3][0][1] == ("a", SELF, "inputs") and not stars[0][1][3][0][2]
+                 and dstars[0][0] == "comp" and dstars[0][1] == "dict"
+                 and dstars[0][2] == (("proj", kw_it, 0), ("a", ("proj", kw_it, 1), "value"))
+                 and not dstars[0][3][0][2])
+    ctx.ob("C02.R2", idf, "init_dist() = distribution(*[current value of every input], "
+                          "**{name: current value of every keyword input})", ok_id,
+           detail=short(rid or (), 160), stmt="init_dist " + pretty(rid or ())[:120])
     for cname in ("Dist", "TransientDist"):
         ci = repo.cls(f"{NODES}.{cname}")
         fi = ci.own_method("update") if cname == "Dist" else ci.own_method("value", "getter")
